@@ -387,6 +387,35 @@ static void gen_c02_schnorr(const std::string& tier, std::vector<Work>& W) {
                 run_case(S, "tapscript " + TTs[ti].name + (annex ? " annex" : "") + " path=" + std::to_string(pathlen), "tapscript:" + TTs[ti].name, fl, V, S2);
         }, "tapscript template " + TTs[ti].name});
     }
+    // (2b) two signature checks in one leaf, every ordered pair of hash types (00 = the 64-byte form), with and without a code separator between
+    //      them, by two keys and by one key twice: each check has its own digest - the hash-type byte itself is part of the message, so 00 and 01
+    //      differ although they sign the same fields. Then the second signature replaced by one made for the OTHER of 00/01 and relabelled.
+    {
+        static const uint8_t HT[] = {0, 1, 2, 3, 0x81, 0x82, 0x83};
+        for (int a = 0; a < 7; a++) for (int b = 0; b < 7; b++) for (int sep = 0; sep < 2; sep++) for (int samekey = 0; samekey < 2; samekey++) {
+            if (!th && samekey && !(HT[a] <= 1 && HT[b] <= 1)) continue;
+            W.push_back({[=](Violations& V, Stats2& S2) {
+                gen::Shape sh; sh.nin = 1; sh.nout = 2; sh.pos = 0; sh.fund_vout = 0; sh.amount = 990000;
+                auto leaf = [=](const std::vector<gen::Key>& k) { bytes r = C({P(k[0].xonly), O(0xad)}); if (sep) r.push_back(0xab); bytes t = C({P(k[samekey ? 0 : 1].xonly), O(0xac)}); r.insert(r.end(), t.begin(), t.end()); return r; };
+                std::vector<TSlot> slots = {{0, 0, HT[a]}, {samekey ? 0 : 1, 1, HT[b]}};
+                auto stk = [](const std::vector<bytes>& sg) { return std::vector<bytes>{sg[1], sg[0]}; };
+                char nm[96]; snprintf(nm, 96, "two checks, hash types %02x then %02x%s%s", HT[a], HT[b], sep ? ", code separator between" : "", samekey ? ", one key" : "");
+                for (bool annex : {false, true}) {
+                    if (annex && !th && !(HT[a] <= 1 && HT[b] <= 1)) continue;
+                    gen::Spend S = make_tapscript(sh, leaf, slots, stk, 1, annex);
+                    run_case(S, std::string("tapscript ") + nm + (annex ? " annex" : ""), "tapscript:two-checks-hashtype-pair", F_STANDARD, V, S2);
+                    if (HT[b] <= 1) {
+                        // second signature made for the other of 00/01, relabelled as HT[b]: invalid
+                        std::vector<TSlot> sl2 = slots; sl2[1].ht = uint8_t(1 - HT[b]);
+                        gen::Spend R = make_tapscript(sh, leaf, sl2, stk, 1, annex);
+                        bytes& sg = R.tx.vin[0].witness[0];
+                        if (HT[b] == 0) sg.pop_back(); else sg.push_back(0x01);
+                        run_case(R, std::string("tapscript ") + nm + ", second signature made for the other of 00/01 and relabelled" + (annex ? " annex" : ""), "tapscript:two-checks-relabelled", F_STANDARD, V, S2);
+                    }
+                }
+            }, "tapscript two checks"});
+        }
+    }
     // (3) validation weight: k checks of one signature; a padding item tunes the budget to land at -50, -1, 0, +49 after the last check
     for (int kchecks : {1, 2, 5}) for (int target : {-50, -1, 0, 49}) {
         W.push_back({[=](Violations& V, Stats2& S2) {
@@ -503,6 +532,27 @@ static void gen_c11(const std::string& tier, std::vector<Work>& W) {
                 compare_explicit(c, I.script, st, fl & ~(F_STRICTENC | F_DERSIG | F_LOW_S | F_NULLFAIL), T[ti].name + " listed signature for an unlisted key, list=" + ldesc, "mock:listed-sig-unlisted-key", V, S, L, true, false, "c11");
             }
         }, "mock list"});
+    }
+    // short values whose concatenations coincide (aa||bbcc == aabb||cc): every list of one or two pairs over 3 signatures x 3 keys of different
+    // lengths, and against each list every (signature, key) of the alphabet in CHECKSIG and in a 1-of-1 multisig, without encoding rules
+    // (flags 0: an unlisted pair is checked for real and fails, nothing is refused on its encoding): accepted exactly when that very pair is listed
+    {
+        std::vector<bytes> sigs = {unhex("aa"), unhex("aabb"), unhex("dd")}, pks = {unhex("cc"), unhex("bbcc"), unhex("bb")};
+        std::vector<std::pair<bytes, bytes>> alpha2; for (auto& sg : sigs) for (auto& pk : pks) alpha2.push_back({sg, pk});
+        std::vector<std::vector<std::pair<bytes, bytes>>> lists2;
+        for (auto& a : alpha2) { lists2.push_back({a}); for (auto& b : alpha2) if (a != b) lists2.push_back({a, b}); }
+        for (size_t li = 0; li < lists2.size(); li++) for (SigVer sv : {SigVer::BASE, SigVer::WITNESS_V0}) {
+            if (!th && sv == SigVer::WITNESS_V0 && li % 3) continue;
+            W.push_back({[=](Violations& V, Stats2& S) {
+                const auto& L = lists2[li];
+                Ctx c = make_ctx(2, 2, 1, 1000, sv);
+                std::string ldesc; for (auto& p : L) ldesc += hex(p.first) + ":" + hex(p.second) + " ";
+                for (auto& q : alpha2) {
+                    { bytes sc = C({P(q.second), O(0xac)}); compare_explicit(c, sc, {q.first}, 0, "short values: " + hex(q.first) + " for " + hex(q.second) + " in CHECKSIG, list=" + ldesc, "mock:short-values", V, S, L, true, false, "c11"); }
+                    { bytes sc = C({O(0x51), P(q.second), O(0x51), O(0xae)}); compare_explicit(c, sc, {{}, q.first}, 0, "short values: " + hex(q.first) + " for " + hex(q.second) + " in 1-of-1 multisig, list=" + ldesc, "mock:short-values-multisig", V, S, L, true, false, "c11"); }
+                }
+            }, "short-value lists"});
+        }
     }
     // taproot key path, tapscript and P2WPKH through the auto-configuration path (--tx/--txin, no script): the signature in the witness is
     // made invalid by one flipped bit; the pair (that signature, the key it is checked against) is listed / not listed / listed with
